@@ -24,7 +24,7 @@ import (
 type CLICase struct {
 	A      []string `json:"a"`
 	B      []string `json:"b"`
-	Source string   `json:"source"` // hcl | hcldir | hcldir_schema_twice | diff_exec (the SQL `schema diff` prints, executed as it stands)
+	Source string   `json:"source"` // hcl | hcldir | hcldir_schema_twice | hcl_new_t (a populated table named new_t in both states) | diff_exec (the SQL `schema diff` prints, executed as it stands)
 }
 
 func tableRows(w *clih.Work, tab string) ([]string, error) {
@@ -56,8 +56,18 @@ func evalCLI(c CLICase) (problems []string, skipped string) {
 	if err := w.Exec("a.sqlite", populateStmts(A, 1)...); err != nil {
 		return nil, "data not admissible for A"
 	}
+	untouched := []string{"p", "u"}
+	if c.Source == "hcl_new_t" {
+		// a user table that carries the name the rebuild procedure gives its temporary copy: it is in both
+		// states, unchanged; whether the apply then works or is refused, its rows stay.
+		if err := w.Exec("a.sqlite", "CREATE TABLE `new_t` (`id` integer NOT NULL, `note` text NULL, PRIMARY KEY (`id`))",
+			"INSERT INTO `new_t` (`id`, `note`) VALUES (1, 'keep me'), (2, NULL)"); err != nil {
+			return []string{"harness: " + err.Error()}, ""
+		}
+		untouched = append(untouched, "new_t")
+	}
 	before := map[string][]string{}
-	for _, tab := range []string{"p", "u"} {
+	for _, tab := range untouched {
 		if before[tab], err = tableRows(w, tab); err != nil {
 			return []string{"harness: " + err.Error()}, ""
 		}
@@ -67,7 +77,11 @@ func evalCLI(c CLICase) (problems []string, skipped string) {
 		return []string{"harness: " + err.Error()}, ""
 	}
 	to := "file://" + w.Path("b.hcl")
-	os.WriteFile(w.Path("b.hcl"), []byte(B.HCL()), 0o644)
+	bh := B.HCL()
+	if c.Source == "hcl_new_t" {
+		bh += "table \"new_t\" {\n  schema = schema.main\n  column \"id\" {\n    null = false\n    type = integer\n  }\n  column \"note\" {\n    null = true\n    type = text\n  }\n  primary_key {\n    columns = [column.id]\n  }\n}\n"
+	}
+	os.WriteFile(w.Path("b.hcl"), []byte(bh), 0o644)
 	if c.Source == "hcldir" || c.Source == "hcldir_schema_twice" {
 		if err := c01.WriteHCLDir(w.Path("bdir"), B.HCL()); err != nil {
 			return []string{"harness: " + err.Error()}, ""
@@ -101,7 +115,7 @@ func evalCLI(c CLICase) (problems []string, skipped string) {
 		// apply must leave the rows alone all the same.
 		skipped = "apply failed"
 	}
-	for _, tab := range []string{"p", "u"} {
+	for _, tab := range untouched {
 		after, err := tableRows(w, tab)
 		if err != nil {
 			bad("table %s, which the change does not touch, cannot be read after `schema apply`: %v (plan: %s)", tab, err, ap.Stdout)
@@ -127,7 +141,7 @@ func cliCases(tier string) []CLICase {
 	u1 := squ.Universe(1)
 	var cs []CLICase
 	for i, s := range u1 {
-		for _, src := range []string{"hcl", "hcldir", "hcldir_schema_twice", "diff_exec"} {
+		for _, src := range []string{"hcl", "hcldir", "hcldir_schema_twice", "diff_exec", "hcl_new_t"} {
 			cs = append(cs, CLICase{nil, s.Names(), src}, CLICase{s.Names(), nil, src})
 			if tier == "thorough" && i+1 < len(u1) {
 				cs = append(cs, CLICase{s.Names(), u1[i+1].Names(), src}, CLICase{u1[i+1].Names(), s.Names(), src})
